@@ -125,6 +125,8 @@ def gen_samples(seed: int, n: int, render=None):
             continue
         if e.is_Number or e.is_Symbol:
             continue
+        if any(abs(f._mpf_[2] + f._mpf_[3]) > 400 for f in e.atoms(sympy.Float)):  # pylint: disable=protected-access
+            continue   # astronomically large/small float produced by evaluation
         k = sympy.srepr(e)
         if k in seen:
             continue
